@@ -263,3 +263,30 @@ CHECKS.update({
                 note=GRAPH_NOTE + " Pulled-in set members do not propagate forward again (pinned from the suite's BiPropGraphTest and the statement).", design_ref="§4 C31",
                 parts=[nat("graph", "native"), e1("graph", "e1")], assumptions=E1_ASSUME[:1] + ["graphs are acyclic by construction"]),
 })
+
+CONC_NOTE = SC_NOTE + " Elements are tagged, heap-owning objects; real-time order is judged from stamps of a global atomic clock taken around each call (a necessary condition of linearizability, not a full linearizability check)."
+CHECKS.update({
+    "C33": pool_check("ConcurrentVector concurrent growth is exact",
+                      "2-4 growers with generated lists over push_back / emplace_back / grow_by(n,v) / grow_by_generator / grow_by(range) / grow_to_at_least, 264-byte elements (first bucket of 2, so a few elements cross bucket boundaries), three trait sets (default, half-buffer-ahead + heap buffer table + compact iterators, full-buffer-ahead), 0-2 readers re-reading published elements through saved references, 0-3 pre-existing elements. Every index handed out once, every tag present exactly once at its owner's index, size == total growth (>= with grow_to_at_least, extra elements default constructed), saved references still valid.",
+                      [e1("conc", "cvgrow")], "§4 C33",
+                      technique="PBT over grower op lists x traits under generated dsched schedules; oracle = index ownership map + tag multiset + reference stability", note=CONC_NOTE),
+    "C34": pool_check("MpmcRingBuffer is an exactly-once bounded FIFO",
+                      "Capacities 2, 3 (exact), 4, 5 (exact), 3 rounded to 4, 8; 2-4 threads with lists over try_push / try_emplace / try_push_batch(2,3) / try_pop(T&) / try_pop() / try_pop_into. Ledger: every popped tag was pushed, none twice; occupancy lower bound never above capacity(); FIFO in real time (a pushed entirely before b is never popped entirely after it, nor left in the ring when b was popped); at quiescence size/empty/full agree, exactly capacity-size pushes succeed, the drain is FIFO; all element objects destroyed once the ring is gone. Failure of a single operation under contention is allowed (documented fail-fast).",
+                      [e1("conc", "mpmc")], "§4 C34-C36", technique="PBT over producer/consumer op lists x capacities under generated dsched schedules; oracle = exactly-once ledger + occupancy bound + real-time FIFO + quiescent exactness + lifetime balance", note=CONC_NOTE),
+    "C35": pool_check("SPSCRingBuffer is an exactly-once bounded FIFO",
+                      "Capacities 1, 2 (exact), 3 (rounded), 5 (exact), 8 (rounded); exactly one producer thread (try_push by rvalue / lvalue / try_emplace / try_push_batch) and one consumer thread (try_pop variants, try_pop_batch). The consumer must receive 0,1,2,... exactly; a push may fail only if the ring could have been full given the pops completed before the call, a pop only if it could have been empty; quiescent exactness and lifetime balance as C34.",
+                      [e1("conc", "spsc")], "§4 C34-C36", technique="PBT over producer and consumer op lists x capacities under generated dsched schedules; oracle = strict sequence check + may-fail-only-if rules + quiescent exactness", note=CONC_NOTE),
+    "C36": pool_check("ChaseLevDeque delivers each element exactly once",
+                      "Capacities 1, 2, 4, 8; one owner (try_push, try_pop, try_pop_into) and 1-3 thieves (try_steal, try_steal_into). Every value returned at most once and only if pushed; a successful owner pop returns the newest element the owner has not popped; when a steal of v has returned no older element may remain untaken or be taken by an operation that started later; an owner pop may fail only if everything left was taken by thieves; a push may fail only with capacity elements unpopped; at quiescence pops come newest-first, steals oldest-first, both fail iff empty.",
+                      [e1("conc", "cld")], "§4 C34-C36", technique="PBT over owner / thief op lists under generated dsched schedules; oracle = exactly-once ledger + owner-stack model + interval-based oldest-first rule + quiescent exactness", note=CONC_NOTE + " Fence-based reasoning on weaker hardware models is out of E1's reach (see C10)."),
+    "C37": pool_check("ConcurrentObjectArena growth and copies are exact",
+                      "Buffer sizes 1, 2, 3, 4, 8 (rounded up to powers of two by the class), 1-4 growers with grow_by(0..9) lists (any resulting buffer count: 1..64), then one of copy construction, copy assignment, move assignment, swap, move construction. Ranges disjoint and covering [0,size()); every new element default constructed (recognisable member initialisers) before its grower claims it; a reference taken before the growth stays valid; the copy / moved / swapped arena has the same size and contents and does not alias the original.",
+                      [e1("conc", "arena")], "§4 C37", technique="PBT over grower lists x buffer sizes x copy operation under generated dsched schedules; oracle = index ownership map + default-value check + element-wise comparison of copies", note=CONC_NOTE),
+    "C41": pool_check("SmallBufferAllocator hands out exclusive aligned blocks",
+                      "Block sizes 8-256; 1-4 threads in 1-2 waves (threads of the first wave exit with cached blocks) with lists over alloc, dealloc, bursts of 10-40 allocations (central-store refill), hand-over of a block to another thread that frees it, approxBytesAllocatedSmallBuffer. Every block aligned to its size; a block carries its owner's canary from alloc to free: receiving a block that still carries a live canary, or finding one's canary overwritten, is a violation; diagnostics return sane values. Second part: the same programs with real threads under ThreadSanitizer (any report = violation) - the consequence of a broken internal lock is a race on plain memory, which the schedule explorer cannot see.",
+                      [e1("conc", "sba"), nat("conc", "sba", variant="tsan", quick=2000, thorough=60000)], "§4 C41",
+                      technique="PBT over alloc/free histories under generated dsched schedules (canary ownership oracle) + the same generator natively under TSan (happens-before race detector as oracle)", note=CONC_NOTE),
+    "C42": pool_check("PoolAllocator hands out exclusive chunks within its slabs",
+                      "Thread-safe and no-lock allocator, chunk sizes 8-100, slabs of 1-6 chunks plus odd remainders, counting allocFunc/deallocFunc; 1-4 threads (1 for the no-lock variant) with alloc/dealloc lists, optional clear() followed by 0-12 allocations. Every chunk inside a slab obtained from allocFunc at a chunk-multiple offset, never handed out while its canary is live, canaries never overwritten; after clear() no allocFunc call until the existing slabs' capacity is used up; deallocFunc called exactly once per slab by the destructor.",
+                      [e1("conc", "pool")], "§4 C42", technique="PBT over alloc/dealloc/clear histories under generated dsched schedules; oracle = slab ledger + chunk canaries + allocFunc call counting", note=CONC_NOTE),
+})
